@@ -501,16 +501,30 @@ def run(prog, rep):
                     '(found %d / %d)' % (len(wb), len(outs)), func=ctor.id)
     else:
         n = wb[0]
-        p, guard = ctor.parent(n), None
-        while p is not None:
-            if p['k'] == 'IfStmt':
-                c = strip(child(p, 'cond'))
-                inthen = any(x is n for x in ctor.walk(child(p, 'then')))
-                guard = (c.get('n') if c['k'] == 'DeclRefExpr' else None, inthen, guard)
-                break
-            p = ctor.parent(p)
+        # WriteBom is executed exactly on the paths where addBom is true: read off the CFG (nested if, guard clause `if (!addBom) return;`, ...)
+        from bsv.cfg import CFG
+        from bsv.expr import resolve
+        g = CFG(ctor)
+        addbom = [p_['d'] for p_ in ctor.params if p_.get('n') == 'addBom']
+        verdict = True
+        n_paths = 0
+        for path, dec, kind in g.paths():
+            if kind != 'return':
+                continue
+            n_paths += 1
+            called = any(x is n for x in g.path_nodes(path))
+            val = None
+            for cid, idx, tk in dec:
+                c = ctor.node(cid) if isinstance(cid, int) else None
+                e, neg = (resolve(ctor, c) if c is not None else None), False
+                while e is not None and e['k'] == 'UnaryOperator' and e.get('op') == '!':
+                    neg, e = not neg, resolve(ctor, e['c'][0])
+                if e is not None and e['k'] == 'DeclRefExpr' and e.get('d') in addbom:
+                    val = (idx == 0) != neg
+            if val is None or val != called:
+                verdict = False
         arg = strip(n['c'][2])
-        if guard and guard[0] == 'addBom' and guard[1] and guard[2] is None:
+        if addbom and n_paths and verdict:
             rep.ok('R13.4', 'ctor|WriteBom under if (addBom)')
         else:
             rep.finding('R13.4', 'ctor|bom guard', ctor.loc(n), 'CEncodedStreamWriter: WriteBom is not executed exactly when addBom is true', func=ctor.id)
@@ -518,8 +532,27 @@ def run(prog, rep):
             rep.ok('R13.4', 'ctor|WriteBom(targetUtfType)')
         else:
             rep.finding('R13.4', 'ctor|bom encoding', ctor.loc(n), 'CEncodedStreamWriter: WriteBom is called with %s, not with targetUtfType' % arg.get('n'), func=ctor.id)
+        # the encoder / buffer pair is selected by a switch over targetUtfType - in the constructor or in a helper that receives it
+        sel_ok = False
         sw = [x for x in ctor.walk() if x['k'] == 'SwitchStmt']
-        if sw and strip(child(sw[0], 'cond')).get('n') == 'targetUtfType':
+        if sw and (strip(child(sw[0], 'cond')) or {}).get('n') == 'targetUtfType':
+            sel_ok = True
+        if not sw:
+            for x in ctor.walk():
+                if x['k'] not in ('CallExpr', 'CXXMemberCallExpr'):
+                    continue
+                h = prog.funcs.get((ctor.callee(x) or {}).get('id'))
+                if h is None or h.body is None or 'CEncodedStreamWriter' not in (h.q or ''):
+                    continue
+                hs = [y for y in h.walk() if y['k'] == 'SwitchStmt']
+                if not hs:
+                    continue
+                cv_ = strip(child(hs[0], 'cond')) or {}
+                args_ = x.get('c', [])[1:]
+                for i_, p_ in enumerate(h.params):
+                    if p_['d'] == cv_.get('d') and i_ < len(args_) and (strip(args_[i_]) or {}).get('n') == 'targetUtfType':
+                        sel_ok = True
+        if sel_ok:
             rep.ok('R13.4', 'ctor|toolset selected by targetUtfType')
         else:
             rep.finding('R13.4', 'ctor|toolset selector', ctor.loc(), 'CEncodedStreamWriter: the encoder is not selected by targetUtfType', func=ctor.id)
@@ -534,16 +567,35 @@ def run(prog, rep):
         unit = {'char': 1, 'char16_t': 2, 'char32_t': 4}[m.group(2)]
         writes = [n for n in f.walk() if n['k'] == 'CXXMemberCallExpr' and (f.callee(n) or {}).get('n') == 'write']
         encs = [n for n in f.walk() if n['k'] in ('CallExpr', 'CXXMemberCallExpr') and (f.callee(n) or {}).get('n') == 'Encode']
+        from bsv.expr import resolve
+        via = None
+        if not writes:
+            # the stream write extracted into a helper of the writer, e.g. WriteRaw(const TUnit* units, size_t count): one call of it here
+            hc = [n for n in f.walk() if n['k'] == 'CXXMemberCallExpr' and 'CEncodedStreamWriter' in ((f.callee(n) or {}).get('q') or '')
+                  and prog.funcs.get((f.callee(n) or {}).get('id')) is not None]
+            hc = [n for n in hc if any(x['k'] == 'CXXMemberCallExpr' and (prog.funcs[f.callee(n)['id']].callee(x) or {}).get('n') == 'write'
+                                       for x in prog.funcs[f.callee(n)['id']].walk())]
+            if len(hc) == 1:
+                via = (hc[0], prog.funcs[f.callee(hc[0])['id']])
+                writes = [x for x in via[1].walk() if x['k'] == 'CXXMemberCallExpr' and (via[1].callee(x) or {}).get('n') == 'write']
         if len(writes) != 1:
             continue
         n_l += 1
         rep.touch(f)
-        from bsv.expr import resolve
-        cnt = resolve(f, writes[0]['c'][2])
+        wf = via[1] if via else f
+        cnt = resolve(wf, writes[0]['c'][2])
         site = 'Write lambda %s<-%s@%s' % (m.group(1), f.id.split('|')[0][-1:], f.loc())
         if encs:
-            ok_mul = cnt['k'] == 'BinaryOperator' and cnt.get('op') == '*' and any(strip(c).get('cv') == unit for c in cnt['c']) and \
-                any((f.callee(x) or {}).get('n') == 'size' for x in f.walk(cnt) if x['k'] == 'CXXMemberCallExpr')
+            if via:
+                # count parameter of the helper times sizeof(its unit type); the argument passed for it here is a size()
+                h = via[1]
+                prm = [i for i, p_ in enumerate(h.params) if any(x['k'] == 'DeclRefExpr' and x.get('d') == p_['d'] for x in h.walk(cnt))]
+                args = via[0].get('c', [])[1:]
+                ok_mul = cnt['k'] == 'BinaryOperator' and cnt.get('op') == '*' and any((strip(c) or {}).get('cv') == unit for c in cnt['c']) and len(prm) == 1 \
+                    and prm[0] < len(args) and any((f.callee(x) or {}).get('n') == 'size' for x in f.walk(resolve(f, args[prm[0]]) or args[prm[0]]) if x['k'] == 'CXXMemberCallExpr')
+            else:
+                ok_mul = cnt['k'] == 'BinaryOperator' and cnt.get('op') == '*' and any(strip(c).get('cv') == unit for c in cnt['c']) and \
+                    any((f.callee(x) or {}).get('n') == 'size' for x in f.walk(cnt) if x['k'] == 'CXXMemberCallExpr')
             enc_tr = trait_mentions(f, encs)
             if not ok_mul:
                 rep.finding('R13.4', 'Write|%s|byte count' % m.group(1), f.loc(writes[0]), 'CEncodedStreamWriter::Write (%s): the byte count is not size() * %d'
